@@ -294,15 +294,16 @@ fn store_point(point: &mut Point, dim: Dimension, u: i32) {
 /// See <https://gitlab.freedesktop.org/freetype/freetype/-/blob/57617782464411201ce7bbc93b086c1b4d7d84a5/src/autofit/afhints.c#L1578>
 fn iup_shift(points: &mut [Point], p1_ix: usize, p2_ix: usize, ref_ix: usize) -> Option<()> {
     let ref_point = points.get(ref_ix)?;
-    let delta = ref_point.u - ref_point.v;
+    // Coordinates of hostile fonts can be anywhere in the i32 range: wrap like FreeType does
+    let delta = ref_point.u.wrapping_sub(ref_point.v);
     if delta == 0 {
         return Some(());
     }
     for point in points.get_mut(p1_ix..ref_ix)? {
-        point.u = point.v + delta;
+        point.u = point.v.wrapping_add(delta);
     }
     for point in points.get_mut(ref_ix + 1..=p2_ix)? {
-        point.u = point.v + delta;
+        point.u = point.v.wrapping_add(delta);
     }
     Some(())
 }
@@ -332,27 +333,27 @@ fn iup_interpolate(
     }
     let (u1, v1) = (ref_point1.u, ref_point1.v);
     let (u2, v2) = (ref_point2.u, ref_point2.v);
-    let d1 = u1 - v1;
-    let d2 = u2 - v2;
+    let d1 = u1.wrapping_sub(v1);
+    let d2 = u2.wrapping_sub(v2);
     if u1 == u2 || v1 == v2 {
         for point in points.get_mut(p1_ix..=p2_ix)? {
             point.u = if point.v <= v1 {
-                point.v + d1
+                point.v.wrapping_add(d1)
             } else if point.v >= v2 {
-                point.v + d2
+                point.v.wrapping_add(d2)
             } else {
                 u1
             };
         }
     } else {
-        let scale = fixed_div(u2 - u1, v2 - v1);
+        let scale = fixed_div(u2.wrapping_sub(u1), v2.wrapping_sub(v1));
         for point in points.get_mut(p1_ix..=p2_ix)? {
             point.u = if point.v <= v1 {
-                point.v + d1
+                point.v.wrapping_add(d1)
             } else if point.v >= v2 {
-                point.v + d2
+                point.v.wrapping_add(d2)
             } else {
-                u1 + fixed_mul(point.v - v1, scale)
+                u1.wrapping_add(fixed_mul(point.v.wrapping_sub(v1), scale))
             };
         }
     }
